@@ -197,6 +197,30 @@ def run(ck):
             v = p.value.obj.items.get("G") if isinstance(p.value, VDict) and p.value.obj.items else None
             ck.check(isinstance(v, VTens) and v.shape == (2, 2, 2), "C04.R1", "user unitary given as python floats: shape (2,2,2)", cd.site(), "the stored entry has shape %s" % (getattr(v, "shape", None),))
 
+        # a user unitary may only be refused for not being one: if a path refuses the symbolic matrix U = (Ur, Ui), the established
+        # condition must be about U U^dagger (or U^dagger U) = 1, i.e. real part Ur Ur^T + Ui Ui^T (resp. Ur^T Ur + Ui^T Ui)
+        for p in [q for q in paths_of(prog, thu) if q.outcome == "raise" and getattr(q.value, "exc_name", "") in ("ValueError", "AssertionError", "TypeError")]:
+            xr, xi = T.sym("userXr"), T.sym("userXi")
+            mm_ = lambda a_, b_: T.app("matmul", a_, b_)  # noqa: E731
+            good = {mm_(xr, T.app("t", xr)) + mm_(xi, T.app("t", xi)), mm_(T.app("t", xr), xr) + mm_(T.app("t", xi), xi)}
+            tested = []
+            for c in p.conds:
+                t_ = getattr(c[3] if len(c) > 3 else None, "term", None)
+                if t_ is None or not (t_.syms() & {"userXr", "userXi"}):
+                    continue
+                for a_ in t_.all_atoms():
+                    if isinstance(a_, T.App) and a_.op in ("tensor_equal", "tensor_allclose"):
+                        for z in a_.args:
+                            cz = T.as_stack0(z) if hasattr(z, "terms") else None
+                            if cz is not None and len(cz) == 2 and (cz[0].syms() & {"userXr", "userXi"}):
+                                tested.append(cz[0])
+            if tested:
+                ck.check(all(z in good for z in tested), "C04.R1", "a user unitary is refused only for not being unitary [%s]" % _c(p), cd.site(),
+                         "create_dict refuses a user matrix when %s differs from the identity; unitarity is U U^dagger = 1, real part Ur Ur^T + Ui Ui^T - a product without the transpose "
+                         "is the identity only for symmetric unitaries, every other valid unitary (H S^dagger, the default Y matrix itself) is refused" % (str(tested[0])[:90],),
+                         key="C04.R1|create_dict|refuses valid unitaries")
+            else:
+                ck.undecided("C04.R1", "a user unitary is refused only for not being unitary [%s]" % _c(p), cd.site(), "create_dict can refuse a user matrix on a condition the analyser does not recognise")
         for p in returning(paths_of(prog, thu), "create_dict(user)"):
             x, r = p.value
             items = r.obj.items
